@@ -402,14 +402,21 @@ pub fn run(args: &Args) {
                     let tw_real = emu.verif_frame_clocks();
                     let old = emu.peek(base + off);
                     let new = old ^ (1 << r.below(8)) ^ 0x10;
-                    emu.verif_bus_write(base + off, new);
+                    // "however the bytes got there": through the CPU's write path, or put there by the host (a poke) while
+                    // the CPU is busy elsewhere
+                    let by_host = r.chance(1, 2);
+                    if by_host {
+                        emu.execute_poke(VecPoke(vec![PokeAction::mem(base + off, new)]));
+                    } else {
+                        emu.verif_bus_write(base + off, new);
+                    }
                     if shadow {
                         cpu_out(&mut emu, 0x7FFD, 8);
                     }
                     idle(&mut emu);
                     emu.set_debug_interface(VDebug::Never);
                     emu.emulate_frames(Duration::from_secs(1000)).unwrap();
-                    out.ev(json!({"ev":"wframe","tw":tw_real,"off":off,"old":old,"new":new,"canvas":canvas(&emu)}));
+                    out.ev(json!({"ev":"wframe","tw":tw_real,"off":off,"old":old,"new":new,"by_host":by_host,"canvas":canvas(&emu)}));
                 }
             }
         }
